@@ -188,3 +188,6 @@ def run_proofs(ctx):
     from vf.proofs.terms import run_terms
 
     run_terms(ctx, "C01")
+    from vf.proofs import c14_ast
+
+    c14_ast.run_proofs(ctx)
